@@ -104,13 +104,16 @@ def slice_de(ctx, rng, n_cases):
         mx = bool(rng.random() < 0.5)
         n = int(rng.integers(5, 13))
         d = int(rng.integers(2, 5))
-        plateau = bool(rng.random() < 0.6)
+        shape = int(rng.integers(0, 5))  # 0,1,2: plateau; 3: smooth; 4: large values with tiny gaps
+        plateau = shape <= 2
         calls = []
 
-        def f(x, plateau=plateau):
+        def f(x, plateau=plateau, shape=shape):
             v = float(np.sum(np.asarray(x) ** 2))
             if plateau:
                 v = float(np.floor(v / 4.0))
+            elif shape == 4:
+                v = 1.0e6 + v * 1.0e-3  # a relative tolerance in the replacement test would show here
             calls.append((tuple(float(t) for t in x), v))
             return v
 
